@@ -28,6 +28,9 @@ type Options struct {
 	K        int  // deviation bound
 	PerSlot  bool // compare after every slot (C02 style) instead of only after blocks
 	Hooks    []Hook
+	// OnlyHooks: mismatches of the plain state comparison belong to C01/C02 and are not reported under
+	// this property (the history is still cut there: the two sides have diverged)
+	OnlyHooks bool
 	// SlotsOnly: histories consist of skip / advance only (no block) after the deviation … unused
 }
 
@@ -38,6 +41,7 @@ type Stats struct {
 	States      int64 // distinct (slot, state root) pairs seen
 	Skipped     int64 // menu entries not applicable in their state
 	Outcomes    int64
+	Diverged    int64 // histories cut because the plain state comparison failed (reported under C01/C02 only)
 	KDone       int
 }
 
@@ -56,6 +60,14 @@ type dev struct {
 	idx  int // index in the menu at that slot (menu evaluated on the node reached so far)
 }
 
+func (e *explorer) reportState(path []string, sig, msg string) {
+	if e.opt.OnlyHooks {
+		atomic.AddInt64(&e.st.Diverged, 1)
+		return
+	}
+	e.report(path, sig, msg)
+}
+
 func (e *explorer) report(path []string, sig, msg string) {
 	e.run.Report(e.opt.Property+"/"+sig, fmt.Sprintf("scenario %s, history %v: %s", e.sc.Name, path, msg),
 		map[string]interface{}{"engine": "chainx", "scenario": e.sc.Name, "preset": e.sc.Preset.Name, "fork_epochs": e.sc.Preset.ForkEpochs, "history": path})
@@ -67,7 +79,7 @@ func (e *explorer) step(ctx context.Context, n *chainh.Node, slot uint64, ch cha
 		atomic.AddInt64(&e.st.Transitions, 1)
 		r := n.StepSlots(ctx, slot)
 		if r.Mismatch != "" {
-			e.report(path, r.Sig, r.Mismatch)
+			e.reportState(path, r.Sig, r.Mismatch)
 			return false, false
 		}
 	} else {
@@ -79,7 +91,7 @@ func (e *explorer) step(ctx context.Context, n *chainh.Node, slot uint64, ch cha
 		}
 		atomic.AddInt64(&e.st.Blocks, 1)
 		if r.Mismatch != "" {
-			e.report(path, r.Sig, r.Mismatch)
+			e.reportState(path, r.Sig, r.Mismatch)
 			return false, false
 		}
 	}
